@@ -5,17 +5,55 @@ import python_minifier.ast_compat as ast
 from python_minifier.transforms.suite_transformer import SuiteTransformer
 
 
+def rebinds_object(module):
+    """
+    Could the name 'object' be bound to something other than the builtin in this module
+
+    Names have not been bound when this transform runs, so look for anything that binds the name directly.
+
+    :param module: The module to search
+    :type module: :class:`ast.Module`
+    :rtype: bool
+
+    """
+
+    for node in ast.walk(module):
+        if isinstance(node, ast.Name) and node.id == 'object' and not isinstance(node.ctx, ast.Load):
+            return True
+        elif isinstance(node, (ast.FunctionDef, ast.AsyncFunctionDef, ast.ClassDef, ast.MatchAs, ast.MatchStar)) and node.name == 'object':
+            return True
+        elif isinstance(node, ast.ExceptHandler) and node.name == 'object':
+            return True
+        elif isinstance(node, ast.arg) and node.arg == 'object':
+            return True
+        elif isinstance(node, ast.alias) and (node.name == '*' or 'object' in [node.asname, node.name]):
+            return True
+        elif isinstance(node, (ast.Global, ast.Nonlocal)) and 'object' in node.names:
+            return True
+        elif isinstance(node, ast.MatchMapping) and node.rest == 'object':
+            return True
+
+    return False
+
+
 class RemoveObject(SuiteTransformer):
+
+    object_is_builtin = True
+
     def __call__(self, node):
         if sys.version_info < (3, 0):
             return node
 
+        # A class is only equivalent without the base if 'object' is the builtin
+        self.object_is_builtin = not rebinds_object(node)
+
         return self.visit(node)
 
     def visit_ClassDef(self, node):
-        node.bases = [
-            b for b in node.bases if not isinstance(b, ast.Name) or (isinstance(b, ast.Name) and b.id != 'object')
-        ]
+        if self.object_is_builtin:
+            node.bases = [
+                b for b in node.bases if not isinstance(b, ast.Name) or (isinstance(b, ast.Name) and b.id != 'object')
+            ]
 
         if hasattr(node, 'type_params') and node.type_params is not None:
             node.type_params = [self.visit(t) for t in node.type_params]
